@@ -10,7 +10,8 @@ RULE = ("scalars: boundary alphabet K + ALL powers of two 2^0..2^255 + seeded ge
         "-1 in int/bytes/WIF form, ALL byte lengths 0..40 except 32; PublicKey.parse: ALL 256 prefix bytes over valid x (33 and 65 "
         "byte forms), x=1..64 classified by the reference lift_x, x>=p, off-curve y, ALL lengths 0..40 except 33; WIF first "
         "character at the payload extremes. non-trivial = compared with own curve arithmetic / refusal observed; distinct by "
-        "construction")
+        "construction"
+        "; intermediate-corner classes (vf/corners.py) for x, y and the four WIF checksums")
 
 
 def keys():
